@@ -36,6 +36,8 @@ def explore(facts, f, T, is_class, base_rows=None, max_rows=600, ctor=None):
         if len(seen) > max_rows: raise Inconclusive(f'more than {max_rows} order-relation rows for {f.name}', f.shortloc())
         dom = ContDomain(T, is_class, rows=rows)
         dom.ctor = bool(f.d.get('ctor')) if ctor is None else ctor
+        c_ = facts.cls(f.d.get('classfull') or '') or {}
+        dom.no_default_init = {x['name'] for x in c_.get('fields', []) if not x.get('init')}      # members without a default member initialiser start indeterminate in a constructor
         dom.ord_vals = ord_of          # shared over the runs: an atom decided by the row is not consulted again
         ex = Exec(facts, dom)
         paths = ex.run(f)
@@ -186,7 +188,7 @@ def array_rules(facts, rep):
                 rep.inconclusive('AR.2', label, f.shortloc(), str(e)); continue
             for rows, dom, paths in res:
                 for P in paths:
-                    if P.end in ('throw', 'noreturn'): continue
+                    if P.end == 'noreturn': continue
                     check_array_path(rep, f, label, rows, dom, P, is_class, base, tc, copy_only)
     rep.count('array_functions', nfn)
     rep.floor('Array member functions analysed', nfn, 40)
@@ -289,6 +291,18 @@ def check_array_path(rep, f, label, rows, dom, P, is_class, base, tc=None, copy_
         lv = g.live.get('data0')
         ok = 'data0' in g.freed and (not is_class or g.eq(lv, Lin.const(0)) is True)
         rep.check(ok, 'AR.4', f'{label} {rs}: destroys [0, m_size) and frees the storage', site, 'the destructor leaves elements alive or does not free the block', key=f'AR.4|dtor|{strip_targs(f.qname)}', fn=f.name)
+    elif P.end == 'throw' and not ctor:
+        # an exception leaves a member function: the object must still be destructible (its destructor will run)
+        if isinstance(arr, Ptr) and not adopted:
+            b = arr.base
+            try: ms = list(size_models(rows, dom, extra={'S'}))
+            except LookupError: ms = []
+            nonempty = bool(ms) and all(m_.get('S', 0) > 0 for m_ in ms)       # the row is feasible and the array held elements: the block is not null
+            if b in g.freed and b != 'null' and nonempty:
+                viol.append(('AR.2', None, f'an exception leaves {base}() ({rs}) while m_array still points to the block {b}, which was released (realloc to 0 bytes frees it and returns null): the destructor destroys m_size = {size} elements in it and frees it again'))
+            elif b in g.live and is_class and b != 'null' and nonempty and g.eq(g.live[b], size) is False:
+                viol.append(('AR.2', None, f'an exception leaves {base}() ({rs}) with m_size = {size} but {g.live[b]} element(s) alive: the destructor destroys elements that are already destroyed'))
+        if not viol: return
     elif not adopted and isinstance(arr, Ptr) and P.end in ('exit', 'return', None):
         b = arr.base
         if b in g.live and is_class and b != 'null':
@@ -309,6 +323,7 @@ def check_array_path(rep, f, label, rows, dom, P, is_class, base, tc=None, copy_
         # a refutation needs an exact evaluation: with unknown values / unsummarised loops in play the verdict is "not decided"
         if fuzzy or _UNK.search(why): rep.inconclusive(r, f'{label} {rs}', node.shortloc() if node is not None else site, f'not decided ({fuzzy or "unknown value"}): {why}')
         else: rep.violation(r, f'{label} {rs}', node.shortloc() if node is not None else site, why, key=f'{r}|{strip_targs(f.qname)}|{why[:50]}', fn=f.name)
+    if P.end == 'throw': return
     if not viol:
         rep.ok('AR.2' if not ctor else 'AR.1', f'{label} {rs}: live elements == m_size == {size}; allocation / copy counts agree', site)
     if f.d.get('move') or f.d.get('moveassign') or base == 'swap':
@@ -337,7 +352,11 @@ def check_array_path(rep, f, label, rows, dom, P, is_class, base, tc=None, copy_
         swapped = all(same(fin_other[n_], entry_this[n_]) for n_ in names)
         emptied = same(fin_other['m_size'], Lin.const(0)) and same(fin_other['m_array'], Ptr('null'))
         inst = f'{label}: the source is left consistent (the former state of *this, or empty)'
+        uninit = [n_ for n_ in names if isinstance(fin_other[n_], Unknown) and str(fin_other[n_].tag).startswith('uninit:')]
         if swapped or emptied: rep.ok('AR.3', inst, site)
+        elif uninit:
+            rep.violation('AR.3', inst, site, f'the moved-from source receives the indeterminate value of {", ".join(uninit)}: this constructor exchanges the fields with an object whose members were never initialised '
+                          '(no default member initialiser, no mem-initialiser), so the source\'s destructor destroys and frees whatever the storage held', key=f'AR.3|swap-uninit|{strip_targs(f.qname)}', fn=f.name)
         elif not followed: rep.inconclusive('AR.3', inst, site, 'a field of the source gets a value the evaluator does not follow')
         else: rep.violation('AR.3', inst, site, 'the source keeps ' + ', '.join(f'{n_} = {fin_other[n_]}' for n_ in names) + ': two arrays own one block (double free) or the states are mixed', key=f'AR.3|swap-src|{strip_targs(f.qname)}', fn=f.name)
 
@@ -699,7 +718,11 @@ def op_pop(front):
         want_slot = P_ if front else P_ + S_ - one
         key = 'front' if front else 'back'
         ok = pos1 is not None and ctx.cong(pos1, want_pos)
-        add('RB.2', ok, f'{label} {rt}: pos\' ≡ {want_pos}', site, '' if ok else f'head position becomes {ctx.final("m_pos")}, expected ≡ {want_pos}', key=f'RB.2|pop_{key}|pos')
+        if not ok and ctx.sign(S_ - one) == 0:
+            # the buffer becomes empty: every valid slot is as good a head as any other
+            fp = ctx.final('m_pos')
+            if isinstance(fp, ModVal) or (isinstance(fp, Lin) and fp.is_const() and fp.c == 0): ok = True
+        add('RB.2', ok, f'{label} {rt}: pos\' ≡ {want_pos}' + (' (any valid slot once the buffer is empty)' if ctx.sign(S_ - one) == 0 else ''), site, '' if ok else f'head position becomes {ctx.final("m_pos")}, expected ≡ {want_pos}', key=f'RB.2|pop_{key}|pos')
         ok = size1 is not None and ctx.eq(size1, S_ - one)
         add('RB.2', ok, f'{label} {rt}: size\' = S-1', site, '' if ok else f'size becomes {size1}', key=f'RB.2|pop_{key}|size')
         mo = ctx.elems({'moveout'})
